@@ -196,6 +196,10 @@ impl AsyncFileSystem for AsyncMemoryFS {
     }
 
     async fn create_dir(&self, path: &str) -> VfsResult<()> {
+        if path.is_empty() {
+            // the root always exists
+            return Err(VfsErrorKind::DirectoryExists.into());
+        }
         self.ensure_has_parent(path).await?;
         let map = &mut self.handle.write().await.files;
         let entry = map.entry(path.to_string());
